@@ -46,8 +46,10 @@ fn main() {
             .parse()
             .unwrap_or_else(|_| die("skip must be a natural number")),
     };
-    let cases = std::fs::read_to_string(&args[1])
+    let raw = std::fs::read(&args[1])
         .unwrap_or_else(|e| die(&format!("cannot read {}: {}", args[1], e)));
+    // Cases are ASCII; anything else becomes U+FFFD and ends up as a BADCASE.
+    let cases = String::from_utf8_lossy(&raw);
     // skip == 0: start a fresh result file; skip > 0: continue the existing one.
     let file = if skip == 0 {
         File::create(&args[2])
